@@ -92,7 +92,22 @@ def scripts_from_graph(g, c, *, cap, seed, res):
         seen.add(key)
         scripts.append({"id": "%s#%d" % (c["name"], len(scripts)), "async": c["a"], "close": c["close"], "wsmode": "queued" if c["a"] else "direct",
                         "writers": c["prog"], "order": sorted(c["prog"]), "steps": steps})
-    return scripts
+    # arrive variants (see vlib/props/c05.py): a writer, a drainer or the closer is moved up to the lock of its next critical
+    # section early, without being granted it
+    import random
+    rnd = random.Random(seed * 613 + 11)
+    extra = []
+    for sc in scripts[:max(1, len(scripts) // 2)]:
+        out, done = [], False
+        for st in sc["steps"]:
+            if rnd.random() < 0.35:
+                prev = max([k for k in range(len(out)) if out[k]["t"] == st["t"]] or [-1])
+                out.insert(rnd.randint(prev + 1, len(out)), {"t": st["t"], "a": "Arrive", "x": {}, "arr": True})
+                done = True
+            out.append(dict(st))
+        if done:
+            extra.append(dict(sc, id=sc["id"] + "~arr", steps=out))
+    return scripts + extra
 
 
 def run(res, scratch, *, tier, seed, replay):
